@@ -18,10 +18,13 @@
 //!
 //! Open finding K-C12 (signature): the future is dropped after it entered `commit` of the
 //! transaction in which `take_next_ready` returned an item, and before it returned that item
-//! (suspended in `commit` or in `get_operation`). When K-C12 is listed as open, the item dequeued
-//! by such a cancellation is not asserted (the case is counted as excluded); everything else –
-//! in particular cancellations suspended in `begin` or `take_next_ready`, or parked on the
-//! notifier – is asserted as usual. A fixed probe demonstrates the finding.
+//! (suspended in `commit` or in `get_operation`). Besides losing the item, a drop inside `commit`
+//! releases the transaction permit while the COMMIT is still running on its pooled connection, so
+//! the next transaction can fail with SQLITE_BUSY (see C10). When K-C12 is listed as open, a
+//! cancellation that reaches this zone is not carried out (the future is driven to completion and
+//! the case is counted as excluded); everything else – cancellations suspended in `begin` or
+//! `take_next_ready`, or parked on the notifier – is asserted as usual. A fixed probe
+//! demonstrates the finding.
 
 use std::collections::BTreeSet;
 use std::path::PathBuf;
@@ -99,6 +102,7 @@ struct Stats {
     landings: Vec<Landing>,
     traces: Vec<Vec<Landing>>,
     excluded: bool,
+    spared: u32,
     lost_in_signature: Vec<usize>,
 }
 
@@ -118,12 +122,14 @@ async fn poll_and_cancel(
     store: &ProbeStore,
     at: Point,
     nth: u8,
-) -> Result<(Landing, Option<Item>, Option<Hash>, Vec<Landing>), String> {
+    spare_signature: bool,
+) -> Result<(Landing, Option<Item>, Option<Hash>, Vec<Landing>, bool), String> {
     store.probe.reset();
     let mut st = Stepper::new(orderer.next());
     let mut landing = Landing::Unpolled;
     let mut trace: Vec<Landing> = Vec::new();
     let mut in_target = 0u8;
+    let mut spared = false;
     if at != Point::Unpolled {
         loop {
             ensure!(trace.len() < 200, "next() was polled 200 times after wake-ups without completing: {trace:?}");
@@ -142,7 +148,11 @@ async fn poll_and_cancel(
             };
             landing = l;
             trace.push(l);
-            if p == at {
+            if spare_signature && matches!(p, Point::Commit | Point::GetOperation) {
+                // Open finding K-C12: a drop here matches its signature; the cancellation is not
+                // carried out (the future is driven on) and the case is counted as excluded.
+                spared = true;
+            } else if p == at {
                 in_target += 1;
                 if in_target >= nth.max(1) {
                     break;
@@ -170,14 +180,14 @@ async fn poll_and_cancel(
         let out = st.take_output().expect("completed stepper has an output");
         drop(st);
         return match out {
-            Ok(item) => Ok((landing, Some(item), took, trace)),
+            Ok(item) => Ok((landing, Some(item), took, trace, spared)),
             Err((_, e)) => Err(format!("next() failed: {}", ord_err(&e))),
         };
     }
     // Cancel: drop the future at its current await point.
     st.cancel();
     drop(st);
-    Ok((landing, None, took, trace))
+    Ok((landing, None, took, trace, spared))
 }
 
 async fn run_case(env: &Env, case: &Case, dir: &CaseDir, stats: &mut Stats) -> Result<(), String> {
@@ -201,7 +211,11 @@ async fn run_case(env: &Env, case: &Case, dir: &CaseDir, stats: &mut Stats) -> R
     for pos in 0..=n_del {
         for (_, at, nth) in cancels.iter().filter(|c| c.0 == pos) {
             let queued = store.queue_len().await?;
-            let (landing, out, took, trace) = poll_and_cancel(&orderer, &store, *at, *nth).await?;
+            let (landing, out, took, trace, spared) = poll_and_cancel(&orderer, &store, *at, *nth, env.k_c12_open).await?;
+            if spared {
+                stats.excluded = true;
+                stats.spared += 1;
+            }
             stats.landings.push(landing);
             stats.traces.push(trace);
             if queued > 0 && !matches!(landing, Landing::Unpolled | Landing::Completed) {
@@ -307,12 +321,6 @@ fn check_once(env: &Env, case: &Case) -> CaseResult {
     drop(rt);
     drop(dir);
     if let Err(e) = r {
-        // Second symptom of dropping `next` inside commit(): the permit is released while the
-        // COMMIT is still running on its pooled connection, so a later transaction on another
-        // connection can fail with SQLITE_BUSY. Same signature as K-C12.
-        if env.k_c12_open && e.contains("database is locked") && !stats.lost_in_signature.is_empty() {
-            return Ok(CaseOk::trivial().label("busy_after_drop_in_commit").label("k_c12_signature").excluded());
-        }
         return Err(format!("{e} [cancelled next() futures landed at {:?}, suspension traces {:?}]", stats.landings, stats.traces));
     }
     let has = |l: Landing| stats.landings.contains(&l);
@@ -325,7 +333,8 @@ fn check_once(env: &Env, case: &Case) -> CaseResult {
         .label_if(has(Landing::ParkedOnNotify), "dropped_parked_on_notify")
         .label_if(has(Landing::Completed), "completed_before_cancel_point")
         .label_if(stats.at_stake > 0, "cancelled_with_item_at_stake")
-        .label_if(!stats.lost_in_signature.is_empty(), "k_c12_signature");
+        .label_if(!stats.lost_in_signature.is_empty(), "k_c12_signature")
+        .label_if(stats.spared > 0, "k_c12_signature_not_cancelled");
     if stats.excluded {
         ok = ok.excluded();
     }
@@ -335,18 +344,18 @@ fn check_once(env: &Env, case: &Case) -> CaseResult {
 fn point() -> impl Strategy<Value = Point> {
     prop_oneof![
         1 => Just(Point::Unpolled),
-        3 => Just(Point::Begin),
-        4 => Just(Point::Take),
+        4 => Just(Point::Begin),
+        6 => Just(Point::Take),
         2 => Just(Point::Commit),
-        2 => Just(Point::GetOperation),
-        2 => Just(Point::Notify),
+        1 => Just(Point::GetOperation),
+        1 => Just(Point::Notify),
     ]
 }
 
 fn case(max_items: usize) -> impl Strategy<Value = Case> {
     (
         graph(max_items),
-        prop::collection::vec((any::<u16>(), point(), 1u8..=3).prop_map(|(pos, at, nth)| Cancel { pos, at, nth }), 1..4),
+        prop::collection::vec((any::<u16>(), point(), 1u8..=3).prop_map(|(pos, at, nth)| Cancel { pos, at, nth }), 2..6),
     )
         .prop_map(|(mut graph, cancels)| {
             // Keep items in the ready queue between deliveries: drain rarely before the end.
@@ -426,7 +435,7 @@ fn probe(env: &Env) -> (bool, String) {
             if let Err((_, e)) = orderer.process(items[0].clone()).await {
                 return Err(format!("process failed: {}", ord_err(&e)));
             }
-            let (landing, out, _, trace) = poll_and_cancel(&orderer, &store, at, nth).await?;
+            let (landing, out, _, trace, _) = poll_and_cancel(&orderer, &store, at, nth, false).await?;
             let r = if out.is_some() {
                 (false, format!("drop point {at:?}#{nth}: next() completed first (suspensions {trace:?})"))
             } else if landing != Landing::Commit && landing != Landing::GetOperation {
@@ -480,18 +489,22 @@ pub fn run(mut ctx: Ctx) -> ! {
         |c| check(&env, c),
     );
     let max_items = ctx.pick(5, 7);
+    // On a tree where the sweep already failed the random part adds nothing, and every further
+    // drop inside commit() can cost a 5 s SQLite busy timeout there.
+    if ctx.violations() == 0 {
     ctx.run_prop(
         Part::new(
             "random_histories",
-            "random DAG histories as in C11 (1-5 items quick, 1-7 thorough) with 1-3 cancellations of a hand-polled next() future at generated positions and await points (unpolled / nth suspension in begin, take_next_ready, commit, get_operation / parked on the notifier); non-trivial = at least one dropped future was suspended inside next() (begin / take_next_ready / commit / get_operation / notifier) while an item was in the ready queue",
+            "random DAG histories as in C11 (1-5 items quick, 1-7 thorough) with 2-5 cancellations of a hand-polled next() future at generated positions and await points (unpolled / nth suspension in begin, take_next_ready, commit, get_operation / parked on the notifier); non-trivial = at least one dropped future was suspended inside next() (begin / take_next_ready / commit / get_operation / notifier) while an item was in the ready queue",
             150,
             4_000,
         )
-        .min_nontrivial(0.2)
+        .min_nontrivial(0.15)
         .shrink_iters(150),
         move || case(max_items),
         |c| check(&env, c),
     );
+    }
     drop(env);
     let _ = std::fs::remove_dir_all(&base);
     ctx.finish()
